@@ -941,15 +941,23 @@ func main() {
 	sort.Strings(fps)
 	for _, fp := range fps {
 		w := total.wit[fp]
-		okAll := true
-		for i := 0; i < 5; i++ {
-			if !reproduces(w) {
-				okAll = false
+		// The oracle is deterministic, but the code under test ranges over Go
+		// maps, so a defect may depend on the iteration order: the witness is
+		// re-run 20 times; it is reported when the same failure was observed
+		// again at least once (a wrong conversion result observed twice is
+		// not a fluke); never seen again = engine error, not a violation.
+		again := 0
+		for i := 0; i < 20; i++ {
+			if reproduces(w) {
+				again++
 			}
 		}
-		if !okAll {
-			chk.EngineError("violation %s on %s -> %s value #%d did not reproduce 5/5", fp, w.src, w.dst, w.valIndex)
+		if again == 0 {
+			chk.EngineError("violation %s on %s -> %s value #%d did not reproduce in 20 re-runs", fp, w.src, w.dst, w.valIndex)
 			continue
+		}
+		if again < 20 {
+			w.what += fmt.Sprintf(" [order-dependent: reproduced in %d of 20 re-runs]", again)
 		}
 		rep := map[string]interface{}{"family": w.family, "src_type": w.src, "dst_type": w.dst, "value_index": w.valIndex, "value": w.val,
 			"cases_with_this_fingerprint": w.count, "note": "types are written in signature syntax (c C w W i I l L = int8 uint8 int16 uint16 int32 uint32 int64 uint64, f d = float32 float64, b bool, s string)",
